@@ -16,6 +16,10 @@ Decided (structural):
  * library impls (K3): `(LTerm, LTerm)` lists and walks both components; `Option<T>` lists/walks its
    payload and becomes the empty list when `None`; an `LTerm` used as a field is a term child whose
    children are those of its compound; compound_eq compares only same-typed objects.
+ (round 4/5) Option<T>::into: a payload that already is a term is upcast to the term itself (F18) + census of
+   the sites that wrap an object as a compound term; hashing feeds only the caller's hasher (no RandomState /
+   DefaultHasher / finish in the library); is_term = as_term().is_some(); Conj::from_iter; what an answer reports
+   for a compound value (constraints() / operands, with C03).
 """
 import C01
 import C03
@@ -254,6 +258,19 @@ def check_library(ctx, lib):
     if fn:
         t = ev.fn_term(fn)
         ctx.expect(unify(pat("walk_star(@1, @0)"), tables.result(t)) is not None, R, "LTerm|walk_star", site_of(fn), "an LTerm field is walked with walk*; found %s" % show(t, maxdepth=4))
+    check_hashing(ctx, lib, R)
+    fn = fnof("crate::compound::CompoundObject::is_term")
+    if fn:
+        t = sym.Evaluator(lib, inline=lambda p_, f_: False).fn_term(fn)
+        eff, m = tables.flatten(t)
+        ok = m and m[0] == "match" and m[1][0] == "call" and suffix_match(m[1][1], "as_term") and m[1][2][0][:2] == ("param", 0)
+        if ok:
+            so = tables.find_arm(m, "Some")
+            no = [a for a in m[2] if a not in so]
+            ok = len(so) == 1 and tables.result(so[0][2]) == ("lit", "Bool(true)") and bool(no) and all(tables.result(a[2]) == ("lit", "Bool(false)") for a in no)
+        elif m and m[0] == "call" and suffix_match(m[1], "is_some"):
+            ok = m[2][0][0] == "call" and suffix_match(m[2][0][1], "as_term")
+        ctx.expect(ok, R, "CompoundObject|is_term", site_of(fn), "is_term() is as_term().is_some(): unification and the traversals dispatch on it for every child")
     # compound_eq: only same-typed objects can be equal
     fns = [f for p, f in lib.fns.items() if p.endswith("CompoundEq>::compound_eq") and "hir" in f]
     ctx.floor(R, len(fns), 1, "compound_eq implementations")
@@ -266,6 +283,41 @@ def check_library(ctx, lib):
             none = tables.find_arm(m, "None")
             ok = len(some) == 1 and len(none) == 1 and "false" in str(tables.result(none[0][2])) and any(suffix_match(c[1], "eq") for c in sym.calls(some[0][2]))
         ctx.expect(ok, R, "compound_eq|same-type-only", site_of(fn), "objects of different types are never equal; same type compares with eq; found %s" % show(t, maxdepth=6)[:200])
+
+
+def check_hashing(ctx, lib, R):
+    """Equal terms hash equally only if every Hash impl of the term types feeds the *caller's* hasher, and
+    nothing else: the blanket CompoundHash::compound_hash is exactly `self.hash(state)`, and no function of
+    the library builds a hasher of its own (RandomState::new, DefaultHasher::new, build_hasher) or folds a
+    digest (Hasher::finish) into another hasher - a per-call random key makes the same term hash differently
+    on every call.  MIR call census over all non-test functions; the positive control is the set of
+    Hash::hash calls the census must see."""
+    import re as _re
+
+    ev = sym.Evaluator(lib, inline=lambda p_, f_: False)
+    fns = [f for p_, f in lib.fns.items() if p_.endswith("CompoundHash>::compound_hash") and "hir" in f]
+    ctx.floor(R, len(fns), 1, "compound_hash implementations")
+    for fn in fns:
+        ctx.fn_seen(fn["npath"])
+        t = ev.fn_term(fn)
+        calls = list(sym.calls(t))
+        ok = len(calls) == 1 and calls[0][1].endswith("Hash::hash") and len(calls[0][2]) == 2 and calls[0][2][0][:2] == ("param", 0) and calls[0][2][1][:2] == ("param", 1)
+        ctx.expect(ok, R, "compound_hash|feeds-callers-hasher", site_of(fn), "compound_hash must be exactly self.hash(state) - the object's fields written into the hasher it was given; found %s" % show(t, maxdepth=5)[:200])
+    seen = 0
+    for p_, f in sorted(lib.fns.items()):
+        mir = f.get("mir")
+        if not mir or f.get("in_test_mod"):
+            continue
+        for b in mir["blocks"]:
+            tm = b.get("term") or {}
+            if tm.get("k") != "call" or not isinstance(tm.get("callee"), str):
+                continue
+            c = _re.sub(r"::<[^<>]*(<[^<>]*>[^<>]*)*>", "", tm["callee"])
+            if c.endswith("Hash::hash"):
+                seen += 1
+            if _re.search(r"(RandomState::new|DefaultHasher::new|BuildHasher::build_hasher|build_hasher|Hasher::finish|BuildHasher::hash_one)$", c):
+                ctx.violation(R, "%s|%s" % (p_, c.split("::")[-2] + "::" + c.split("::")[-1]), site_of(tm.get("sp", "")) if tm.get("sp") else site_of(f), "the library builds or finishes a hasher of its own (`%s`): hashing must only write into the hasher the caller passed, or equal terms stop hashing equally" % c)
+    ctx.floor(R, seen, 8, "Hash::hash call sites seen by the hasher census (positive control)")
 
 
 def check_generated_instances(ctx, fb):
@@ -336,6 +388,16 @@ def run(ctx, fb, cfg):
     C01.check_occurs(ctx, lib, R + "K5.occurs")
     C03.check_reify_threading(ctx, lib, R + "K3.reify-threads")
     check_library(ctx, lib)
+    # labeling treats compound fields like list elements: the fields are conjoined by Conj::from_iter (every item)
+    import builders
+
+    builders.check_all(ctx, lib, R + "K6.builders", only=("Conj",))
+    # what an answer reports for a compound value: constraints() = relevant(anyvars()) on every kind of term,
+    # operands complete (shared with C03)
+    C03.check_lresult(ctx, lib, R + "K3.lresult-constraints")
+    import fdrules
+
+    fdrules.check_operands(ctx, lib, R + "K10.operands-complete")
     if cfg == "lib-default":
         S = macrolib.load_sem(ctx, fb)
         if S is not None:
